@@ -163,6 +163,7 @@ type finding struct {
 }
 
 type sdCall struct {
+	called   time.Time
 	flags    string
 	ret      time.Time
 	returned bool
@@ -193,8 +194,9 @@ type world struct {
 	slowCall atomic.Bool
 	regMu    sync.Mutex // serialises the TaskExecutor calls of the harness together with their bookkeeping
 	popMu    sync.Mutex
-	qev      []qEvent // polls and insertions of this world's queue in the order of their critical sections
-	glitch   bool     // a callback started long after its element was both polled and due
+	qev      []qEvent    // polls and insertions of this world's queue in the order of their critical sections
+	glitch   bool        // a callback started long after its element was both polled and due
+	marks    []time.Time // when callbacks returned and when operations of the harness were done
 	qptr     uintptr
 }
 
@@ -274,6 +276,7 @@ func (w *world) callback(t *task) func() {
 			w.mu.Lock()
 			t.finished = true
 			w.running--
+			w.marks = append(w.marks, time.Now())
 			w.mu.Unlock()
 		}()
 		switch t.kind.k {
@@ -540,7 +543,7 @@ func (w *world) exec(f []string) string {
 			flags = append(flags, timed.DontWaitForShutdown)
 		}
 		w.mu.Lock()
-		c := &sdCall{flags: fl}
+		c := &sdCall{flags: fl, called: time.Now()}
 		w.sd = append(w.sd, c)
 		if !w.isSD {
 			w.isSD = true
@@ -670,6 +673,9 @@ func runOnce(lines []string, unit time.Duration) (res caseResult) {
 			w.maxLate = late
 		}
 		ans := w.exec(f[1:])
+		w.mu.Lock()
+		w.marks = append(w.marks, time.Now())
+		w.mu.Unlock()
 		sleepUntil(target.Add(unit / 2))
 		if ans != "bad-op" {
 			ans += " sz=" + strconv.Itoa(w.te.Size())
@@ -737,8 +743,60 @@ func (w *world) finish(T int) string {
 			}
 		}
 	}
+	// ... and a delay of about a whole unit lands on the grid again: once an element has been polled and its time has
+	// come, its callback must start within a quarter unit
+	w.popMu.Lock()
+	for _, t := range runs {
+		if w.armTags[t.tag] || len(t.runs) == 0 {
+			continue
+		}
+		at := t.runs[0]
+		var polled time.Time
+		for _, e := range w.qev {
+			if e.pop && e.due.Equal(t.due) && e.at.Before(at) {
+				polled = e.at
+			}
+		}
+		if polled.IsZero() {
+			continue
+		}
+		ref := t.due
+		if polled.After(ref) {
+			ref = polled
+		}
+		if at.Sub(ref) > w.unit/4 {
+			w.glitch = true
+		}
+	}
+	w.popMu.Unlock()
 	for _, c := range w.sd {
-		if c.returned && offGrid(c.ret) {
+		if !c.returned {
+			continue
+		}
+		if offGrid(c.ret) {
+			w.glitch = true
+		}
+		// Shutdown returns right after the last thing that happened before it (its call, a poll, a callback returning)
+		ref := c.called
+		upd := func(t time.Time) {
+			if t.Before(c.ret) && t.After(ref) {
+				ref = t
+			}
+		}
+		for _, m := range w.marks {
+			upd(m)
+		}
+		for _, t := range runs {
+			for _, at := range t.runs {
+				upd(at)
+			}
+		}
+		w.popMu.Lock()
+		for _, e := range w.qev {
+			upd(e.at)
+		}
+		w.popMu.Unlock()
+		if c.ret.Sub(ref) > w.unit/4 {
 			w.glitch = true
 		}
 	}
